@@ -1,10 +1,17 @@
 """C16 — a message written through the client arrives intact at a go-smtp backend."""
 from vlib.props import clientprops as P
+from vlib import e2egen
+
+E2E = lambda case, ans: ""       # the e2e probe has no model answer: it is judged by the Lean monitor only
 
 globals().update(P.make("C16",
     "cconv probe: every body over the tokens {'.', LF, CRLF, 'a'} up to the tier's length, written whole / byte by byte / in a random "
     "2-split, verdict {accept, reject}, SMTP and LMTP, Close called twice; every 2-split of bodies with end-of-data look-alikes; bodies "
     "with a lone CR (outside the domain: compared with the model, not judged); random 8-bit bodies up to 9000 octets in random "
     "partitions. The octets on the wire are read back with the DATA specification (Spec.terminated?) and must be the normalised body. "
+    "e2e probe (real client -> real server in one process, no model): the same token bodies, plus bodies of 500-9000 octets with dots, bare LFs and "
+    "end-of-data look-alikes placed around the 512/4096-octet buffer boundaries, random partitions, second message on the same connection; "
+    "the backend must have read exactly the normalised body, and Close must return the backend's verdict. "
     "non-trivial = more than one call; distinct = distinct case line",
-    ["C16_roundtrip (pending)"], lambda tier, rng: [("cconv/bodies-and-partitions", P.c16_cases(tier, rng), True)]))
+    ["C16_roundtrip (pending)"], lambda tier, rng: [("cconv/bodies-and-partitions", P.c16_cases(tier, rng), True),
+                       ("e2e/client-to-server", e2egen.c16_cases(tier, rng), True, E2E)]))
